@@ -2,10 +2,20 @@
 The Gaussian kernel of `local_polynomial.py` (`_gaussian`) over the reals.
 -/
 import Mathlib.Analysis.SpecialFunctions.Trigonometric.Basic
+import FDAModel.Generated.Kernels
+import Mathlib.Analysis.SpecialFunctions.Pow.Real
 
 namespace FDA.LP
 
 /-- `_gaussian(u) = exp(-u²/2) / sqrt(2π)`. -/
 noncomputable def gaussian (u : ℝ) : ℝ := Real.exp (-(u ^ 2) / 2) / Real.sqrt (2 * Real.pi)
+
+/-- The Gaussian kernel as the source has it NOW: its two constants come from the generated file
+(`FDAModel/Generated/Kernels.lean`, re-translated from `local_polynomial.py` on every run). -/
+noncomputable def gaussianSrc (u : ℝ) : ℝ :=
+  Real.exp (-(u ^ 2) / (FDA.Generated.gaussExpDiv : ℝ)) / Real.sqrt ((FDA.Generated.gaussNormCoef : ℝ) * Real.pi)
+
+/-- The rule-of-thumb bandwidth `n^(-1/5)` over the reals (`n` = `bandwidthCount` of the entry point). -/
+noncomputable def defaultBandwidth (c : ℝ) : ℝ := c ^ (-(1 / 5 : ℝ))
 
 end FDA.LP
